@@ -260,7 +260,7 @@ def run_rc_arm(pid, arm, bins, tier, seed, res):
         env['VF_OUT'] = out
         env['VF_SHARD'] = str(i)
         env['VF_TAPE_MAX'] = str(cfg.get('tape', 1024))
-        env['RC_PARAMS'] = 'seed=%d max_success=%d max_size=100 max_discard_ratio=1000' % (seed * 64 + i + 1, cfg['cases'])
+        env['RC_PARAMS'] = 'seed=%d max_success=%d max_size=100 max_discard_ratio=1000' % (seed * 64 + i + 1 + 100003 * arm.get('_index', 0), cfg['cases'])
         lf = open(os.path.join(out, 'log'), 'w')
         p = subprocess.Popen([exe], env=env, stdout=lf, stderr=subprocess.STDOUT, cwd=out, start_new_session=True)
         procs.append((i, p, out, lf))
@@ -452,6 +452,8 @@ def main(argv):
         log('unknown property', pid); return 2
     spec = registry.REG[pid]
     t0 = time.time()
+    for _i, _arm in enumerate(spec['arms']):
+        _arm['_index'] = _i
     arms = [arm for arm in spec['arms'] if not a.arm or arm['name'] == a.arm]
     bins = {}
     for arm in arms:
